@@ -4,6 +4,7 @@ property's check (with --all: every property's quick check), undoes the change, 
 which checks raised an alarm in /verif/seeded/RESULTS.json."""
 import json, os, subprocess, sys, glob, time
 VERIF = os.path.dirname(os.path.dirname(os.path.abspath(__file__)))
+REPO = os.environ.get("VERIF_REPO", "/repo")
 sys.path.insert(0, os.path.join(VERIF, "bin"))
 import props as P
 args = sys.argv[1:]
@@ -16,12 +17,12 @@ args = [a for a in args if a != "--all"]
 dirs = args or sorted(glob.glob(os.path.join(VERIF, "seeded", "C*-*")))
 resp = os.path.join(VERIF, "seeded", "RESULTS.json")
 results = json.load(open(resp)) if os.path.exists(resp) else {}
-assert subprocess.run(["git", "-C", "/repo", "status", "--porcelain"], capture_output=True).stdout.strip() == b"", "/repo not clean"
+assert subprocess.run(["git", "-C", REPO, "status", "--porcelain"], capture_output=True).stdout.strip() == b"", REPO + " not clean"
 for d in dirs:
     name = os.path.basename(d.rstrip("/"))
     pid = name.split("-")[0]
     pids = sorted(P.PROPS) if allp else [pid]
-    r = subprocess.run(["git", "-C", "/repo", "apply", os.path.join(d, "patch.diff")], capture_output=True)
+    r = subprocess.run(["git", "-C", REPO, "apply", os.path.join(d, "patch.diff")], capture_output=True)
     if r.returncode != 0:
         print(name, "patch does not apply", r.stderr.decode()[:200])
         continue
@@ -36,6 +37,6 @@ for d in dirs:
             print(name, q, pr.returncode, line[0] if line else out.strip().split("\n")[-1][:150], flush=True)
         results[name] = row
     finally:
-        subprocess.run(["git", "-C", "/repo", "checkout", "--", "."])
-        subprocess.run(["git", "-C", "/repo", "clean", "-fdq"])
+        subprocess.run(["git", "-C", REPO, "checkout", "--", "."])
+        subprocess.run(["git", "-C", REPO, "clean", "-fdq"])
     json.dump(results, open(resp, "w"), indent=1, sort_keys=True)
